@@ -25,7 +25,7 @@ RULE = (
     "(nt >= 4 nx); ideal reservoir for all pressure pairs. Non-trivial = recovery reached >= 20 % "
     "of its ceiling (something was produced) ; distinct = descriptor hash."
 )
-MIN_NONTRIVIAL = {"quick": 30, "thorough": 900}
+MIN_NONTRIVIAL = {"quick": 30, "thorough": 2000}
 SHARDS = {"quick": 6, "thorough": 16}
 WATCHDOG_S = {"quick": 900, "thorough": 7200}
 GENERATOR = {"nx": [25, 40, 60, 100, 200], "r": [4, 8, 16], "t_end": "[2, 12]", "segments": "1 (constant) / 3 (steps down) / 4..5 (arbitrary)"}
@@ -52,7 +52,7 @@ def _segments_grid(seg_T, seg_n):
 
 def generate(ck):
     rng = ck.rng
-    n = 44 if ck.tier == "quick" else 1300
+    n = 44 if ck.tier == "quick" else 3000
     descs = [
         {"cls": "ideal", "nx": 50, "ratio": 0.1, "r": 8, "t_end": 9.0, "levels": None},
         {"cls": "single", "table": {"kind": "shipped", "name": "pvt_gas"}, "nx": 50, "p_i": 8000.0, "p_f": 7960.0, "r": 8, "t_end": 6.0, "levels": None},
@@ -79,7 +79,7 @@ def generate(ck):
             p_f = 0.5 * (p_i + lo)
         if i % 5 == 2:
             t = dict(t, rows=str(rng.choice(["descending", "shuffled"])), rows_seed=int(rng.integers(0, 10**6)))
-        d = {"cls": "single", "table": t, "nx": nx, "p_i": p_i, "p_f": p_f, "r": r, "t_end": t_end, "levels": None, "ladder": bool(i % 4 == 0)}
+        d = {"cls": "single", "table": t, "nx": nx, "p_i": p_i, "p_f": p_f, "r": r, "t_end": t_end, "levels": None, "ladder": bool(i % 4 == 0), "reused": bool(i % 7 == 3)}
         kind = i % 3
         if kind == 1 and not d["ladder"]:
             k = 3
@@ -137,6 +137,8 @@ def _one(ck, desc, nx):
         warnings.simplefilter("ignore")
         fluid = FlowProperties(tab, p_i)
     res = SinglePhaseReservoir(nx, p_f, p_i, fluid)
+    if desc.get("reused"):
+        res = sim.reused_object(SinglePhaseReservoir, nx, tab, fluid, p_f, p_i)
     sched = None
     if levels:
         sched = np.empty(len(t))
